@@ -1364,3 +1364,65 @@ func (w *dtWalker) allocName(a *ssa.Alloc) string {
 	}
 	return fmt.Sprintf("local:%s#%d", a.Comment, k+1)
 }
+
+// relAliases: for a key of the form "(A op B)" with a relational operator at nesting depth 1, the other three
+// spellings of the same fact with their truth values.
+func relAliases(key string, truth bool) map[string]bool {
+	if len(key) < 5 || key[0] != '(' || key[len(key)-1] != ')' {
+		return nil
+	}
+	depth := 0
+	for i := 0; i < len(key); i++ {
+		switch key[i] {
+		case '(', '[', '{':
+			depth++
+		case ')', ']', '}':
+			depth--
+		case '<', '>':
+			if depth != 1 || i == 0 {
+				continue
+			}
+			if key[i] == '>' && key[i-1] == '-' { // "->"
+				continue
+			}
+			if key[i] == '<' && i+1 < len(key) && key[i+1] == '-' { // "<-"
+				continue
+			}
+			op := string(key[i])
+			j := i + 1
+			if j < len(key) && key[j] == '=' {
+				op += "="
+				j++
+			}
+			a, b := key[1:i], key[j:len(key)-1]
+			if a == "" || b == "" {
+				return nil
+			}
+			neg := map[string]string{"<": ">=", "<=": ">", ">": "<=", ">=": "<"}
+			flip := map[string]string{"<": ">", "<=": ">=", ">": "<", ">=": "<="}
+			return map[string]bool{
+				"(" + a + neg[op] + b + ")":       !truth,
+				"(" + b + flip[op] + a + ")":      truth,
+				"(" + b + neg[flip[op]] + a + ")": !truth,
+			}
+		}
+	}
+	return nil
+}
+
+// Lit: the truth value the path assumes for a literal key, also when the source spelled a relational test the
+// other way round (a>b == !(a<=b) == b<a == !(b>=a)); "" when the path says nothing about it.
+func (p *dtPath) Lit(key string) string {
+	if v, ok := p.Assume[key]; ok {
+		return v
+	}
+	for k, v := range p.Assume {
+		if v != "true" && v != "false" {
+			continue
+		}
+		if t, ok := relAliases(k, v == "true")[key]; ok {
+			return fmt.Sprint(t)
+		}
+	}
+	return ""
+}
